@@ -202,6 +202,25 @@ func (v *View) checkC09(res *Result) {
 				res.viol("C09", "promote-after-stop", "promote-after-stop", fmt.Sprintf("%s promotion callback at %v after %s returned at %v", a.Inst, e.VT, a.API, a.RetVT), j)
 			case "store.issue":
 				site := v.siteBefore(j, e.G)
+				if site == "-" && e.VT == a.CallVT {
+					// Issued at the very virtual instant at which the stop call was made, by a
+					// goroutine the harness never parked or delayed in between: it was already
+					// past its "is the run over?" test when the stop call cancelled the run, and
+					// reached the store a few instructions later, after the call had returned -
+					// a pure scheduling race inside one instant (the recorded check-then-act
+					// window of the heartbeat's refresh goroutine). A goroutine that the harness
+					// held across the stop call, or an operation issued later, is not that.
+					held := false
+					for i := a.Call; i < j; i++ {
+						if x := v.Ev[i]; x.G == e.G && (x.Kind == "break.hit" || x.Kind == "yield" || x.Kind == "break.release") {
+							held = true
+							break
+						}
+					}
+					if !held {
+						site = "same-instant-unheld"
+					}
+				}
 				res.viol("C09", "store-op-after-stop", "store-op-after-stop:"+e.Op+":"+site, fmt.Sprintf("%s issued %s at %v after %s returned at %v (%s)", a.Inst, e.Op, e.VT, a.API, a.RetVT, site), j)
 			case "transition":
 				if e.To != "STOPPED" {
@@ -951,6 +970,15 @@ func (v *View) checkC10(res *Result) {
 			continue
 		}
 		if is.Takeover && is.Priority > pprio {
+			// "the priority stored in that record" is the priority of the instance that wrote
+			// it: a record that an election instance wrote without its configured priority lets
+			// an instance that does not outrank its writer replace it ("leadership then stays
+			// with the highest-priority instance")
+			if ps := v.instSpec(m.PrevBy); ps != nil && m.PrevBy == pid && pprio != ps.Priority && !(is.Priority > ps.Priority) {
+				res.viol("C10", "illegitimate-takeover", "illegitimate-takeover:record-without-its-writers-priority",
+					fmt.Sprintf("%s (prio %d) replaced the live record of %s (configured prio %d), which %s itself had written with priority %d", m.By, is.Priority, pid, ps.Priority, pid, pprio), m.Seq)
+				continue
+			}
 			res.Obs["c10.takeovers"]++
 			continue
 		}
